@@ -34,9 +34,9 @@ def block_seeded_summary():
         m = json.load(open(mj))
         tot += 1
         conf += 1 if m.get("confirmed") else 0
-        cb = m.get("caught_by", [])
-        own = [c for c in cb if c.startswith(m.get("breaks", "?") + "/")]
-        concrete = [c for c in cb if "no-failing-input-found" not in c]
+        det = m.get("detection", {})
+        cb = [k for k, v in det.items() if v.get("rc") == 1] or m.get("caught_by", [])
+        concrete = [k for k in cb if "no-failing-input-found" not in (det.get(k, {}).get("verdict", "") + k)]
         if not cb:
             missed += 1
         elif not concrete:
@@ -62,8 +62,9 @@ def block_seeded():
         need = (m.get("summary") or m.get("needs_to_manifest", "")).strip().splitlines()
         need = [re.sub(r"[=\-_*#]{4,}", "", l).strip() for l in need]
         need = " ".join(l for l in need if l)[:260].replace("|", "/")
-        caught = ", ".join(m.get("caught_by", [])) or "**missed**"
         det = m.get("detection", {})
+        caught = ", ".join(k.split(" ")[0] + (" (no-failing-input-found)" if "no-failing-input-found" in v.get("verdict", "") else "")
+                           for k, v in det.items() if v.get("rc") == 1) or ", ".join(m.get("caught_by", [])) or "**missed**"
         first = next((v.get("detail", "") for k, v in det.items() if v.get("rc") == 1), "")
         first = first.replace("detail:", "").strip()[:160].replace("|", "/")
         rows.append("| `%s` | %s | %s | %s | %s%s |" % (os.path.basename(d), m.get("breaks", ""), need, "yes" if m.get("confirmed") else "no",
